@@ -37,8 +37,9 @@ pub fn corr_bounds(ctx: &mut Ctx) {
                 ctx.begin_case(&format!("bounds b={} jac={}", b, jac));
                 ctx.mark_nontrivial();
                 match &r {
-                    Ok((lo, hi)) => ctx.line(&format!("ssk bounds {} {}", fhx(b), fhx(jac)), &format!("{} {}", fhx(*lo), fhx(*hi))),
-                    Err(_) => ctx.line(&format!("ssk bounds {} {}", fhx(b), fhx(jac)), "PANIC"),
+                    Ok((lo, hi)) => { ctx.line(&format!("ssk bounds {} {}", fhx(b), fhx(jac)), &format!("{} {}", fhx(*lo), fhx(*hi)));     // generated from the source
+                                      ctx.line(&format!("ssk boundsh {} {}", fhx(b), fhx(jac)), &format!("{} {}", fhx(*lo), fhx(*hi))); }  // hand-written transcription
+                    Err(_) => { ctx.line(&format!("ssk bounds {} {}", fhx(b), fhx(jac)), "PANIC"); ctx.line(&format!("ssk boundsh {} {}", fhx(b), fhx(jac)), "PANIC"); }
                 }
             }
             match r {
@@ -89,7 +90,7 @@ pub fn corr_card(ctx: &mut Ctx) {
         let step = (n / 8).max(1);
         for (i, x) in items.iter().enumerate() {
             s.sketch(x).unwrap();
-            ctx.op(&format!("ssk sk a {}", hx(hash_with::<FnvHasher, u64>(x))));
+            ctx.op(&format!("ssk sk a {}", fnv_tok(x)));
             if i % step == 0 || i + 1 == n {
                 let (card, rsd) = s.get_cardinal_stats();
                 ctx.line("ssk card a", &format!("{} {}", fhx(card), fhx(rsd)));
